@@ -160,6 +160,16 @@ CHECKS = {
          "As C01; termination is observed on the recorded programs only (a non-returning execute is reported through the watchdog "
          "without a minimised program).",
          "TLA+ reference interpreter; TLC interpretation of programs recorded from the real engine (trace validation)"),
+ "C19": ("model_checking",
+         "TLC explores every interleaving of the fork-join model (workers evaluate their chunk, then append under the lock; levels in "
+         "descending salience) for small configurations and checks equality with the sequential result and <>returned; the "
+         "configuration space (n 1..24, ties, disabled rules and levels, max_threads 1..16, min_rules_per_thread 1..4, on/off) is "
+         "enumerated by TLC and every case is run repeatedly on the real engine under perturbed and rendez-vous schedules, compared "
+         "with the engine's sequential path.",
+         "DESIGN.md §4 C19",
+         "Exhaustive over schedules for the model only (N<=5, <=3 workers); on the code only the schedules that the perturbed runs "
+         "produce are observed; the sequential path of the same engine is the oracle; TLC and the harness projection are trusted.",
+         "TLA+ fork-join interleaving spec checked by TLC (safety + liveness); TLC-enumerated configurations run on the real engine under perturbed schedules"),
 }
 
 NOT_YET = "check not built yet in this round (see DESIGN.md §9 build order); no claim is made"
